@@ -42,6 +42,17 @@ def ftp_scenario(name, N=1):
     return scn
 
 
+def ftp_odd_names_scenario(name, N=1):
+    """A directory whose entries have names with characters that mean something in a URL (all legal file names)."""
+    names = ['plain.txt', 'track #1.txt', 'what?.txt', 'a%41.txt', 'notes: todo.txt']
+    urls = [U(1, host='f.test', path='/', links=list(range(2, 2 + len(names))))]
+    urls += [U(i + 2, host='f.test', path='/' + n) for i, n in enumerate(names)]
+    scn = scenario(name, urls, dict(tries=1), N=N)
+    f = '-rw-r--r-- 1 ftp ftp 3 Jan 01  2020 %s\r\n'
+    scn['ftp'] = dict(files={n: 'xyz' for n in names}, dirs=[], listings={'/': ''.join(f % n for n in names)})
+    return scn
+
+
 def hosts_of(scn):
     return sorted(set(u['host'] for u in scn['urls']))
 
@@ -182,6 +193,9 @@ def c01_catalogue(quick):
            U(3, links=[dict(to=3, spelling='http://a.test/p3#self'), 1])]
     for n in (1, 2, 3):
         out.append(scenario('cycle-spellings-N%d' % n, cyc, N=n))
+    # recursive FTP: the entries of a listing are the links of a directory, whatever characters their names have
+    out.append(ftp_scenario('ftp-tree-N1'))
+    out.append(ftp_odd_names_scenario('ftp-odd-names-N1'))
     # foreign host, redirect to the foreign host (waived), redirect to a rejected URL, link to rejected
     scope = [U(1, links=[2, 3, 4, 5, 7]), U(2, host='b.test'), U(3, kind='redirect', rto=6),
              U(4, kind='redirect', rto=5), U(5, rejected=1), U(6, host='b.test', links=[2]), U(7, links=[1])]
